@@ -80,9 +80,25 @@ def main(tier, seed):
         for r in range(reps):
             n = 1 if r % 7 == 0 else rng.randint(2, 7)
             x, y, z = triple(rng, dom, n)
+            adt = float
+            if r % 5 == 3 and dom != "prob":
+                # whole-number data (counts, histograms, pixel values) handed over as an integer array; bins that are empty
+                # in two of the vectors at once
+                lo = -3 if dom == "real" else (1 if dom == "posonly" else 0)
+                x, y, z = ([float(rng.randint(lo, 4)) for _ in range(n)] for _ in range(3))
+                if lo <= 0:
+                    for t in range(n):
+                        if rng.random() < 0.3:
+                            x[t] = y[t] = 0.0
+                        if rng.random() < 0.15:
+                            z[t] = 0.0
+                if rng.random() < 0.2:
+                    y = list(x)
+                adt = rng.choice([np.int64, np.int64, np.int32])
+                stats["integer_arrays"] = stats.get("integer_arrays", 0) + 1
             xl, yl, zl = x, y, z
             # the SAME array objects are used for all five evaluations of a triple (as a caller would)
-            x, y, z = np.array(xl, dtype=float), np.array(yl, dtype=float), np.array(zl, dtype=float)
+            x, y, z = np.array(xl, dtype=adt), np.array(yl, dtype=adt), np.array(zl, dtype=adt)
             if xl == yl:
                 y = x.copy()
             if n == 1:
@@ -100,7 +116,7 @@ def main(tier, seed):
                 key = "finite:" + name
                 if key not in seen_keys and len(seen_keys) < 6:
                     seen_keys.add(key)
-                    rep.violation("%s raises ZeroDivisionError on its domain" % name, dict(metric=name, x=xl, y=yl, z=zl), key=key)
+                    rep.violation("%s raises ZeroDivisionError on its domain" % name, dict(metric=name, x=xl, y=yl, z=zl, dtype=np.dtype(adt).name), key=key)
                 continue
             stats["evaluations"] += 5
             # the same checks with the first argument held in a caller-owned buffer that is refilled in place
@@ -119,14 +135,14 @@ def main(tier, seed):
                 if key not in seen_keys and len(seen_keys) < 6:
                     seen_keys.add(key)
                     rep.violation("%s(buffer, y) = %r after the buffer was refilled in place with y's values, expected 0" % (name, bself),
-                                  dict(metric=name, x=xl, y=yl, z=zl, note="buffer first holds x, then y"), key=key)
+                                  dict(metric=name, x=xl, y=yl, z=zl, dtype=np.dtype(adt).name, note="buffer first holds x, then y"), key=key)
             elif "sym" in claims and abs(bzy - byz2) > 1e-9 * max(1.0, abs(bzy), abs(byz2)):
                 nviol += 1
                 key = "sym:" + name
                 if key not in seen_keys and len(seen_keys) < 6:
                     seen_keys.add(key)
                     rep.violation("%s is not symmetric on a buffer refilled in place: f(buf,y)=%r, f(y,buf)=%r" % (name, bzy, byz2),
-                                  dict(metric=name, x=xl, y=yl, z=zl, note="buffer holds x, then y, then z"), key=key)
+                                  dict(metric=name, x=xl, y=yl, z=zl, dtype=np.dtype(adt).name, note="buffer holds x, then y, then z"), key=key)
             rep.count_case((name, tuple(xl), tuple(yl), tuple(zl)), True)
             scale = max(1.0, abs(fxy), abs(fyz), abs(fxz))
             msg = key = None
@@ -146,7 +162,7 @@ def main(tier, seed):
                 nviol += 1
                 if key not in seen_keys and len(seen_keys) < 6:
                     seen_keys.add(key)
-                    rep.violation(msg, dict(metric=name, x=xl, y=yl, z=zl), key=key)
+                    rep.violation(msg, dict(metric=name, x=xl, y=yl, z=zl, dtype=np.dtype(adt).name), key=key)
     rep.corr["axiom_oracle"] = dict(cases=stats["evaluations"], distribution=stats)
     # float-level exactness (Props/C08_float.v): bitwise symmetry and exact zero self-distance of the accepted identifiers
     import c08_float
@@ -169,6 +185,6 @@ def replay(path):
     if r.get("check") in ("float_sym", "float_zero"):
         import c08_float
         return c08_float.replay(r, d)
-    v = float(d.DISTANCES[r["metric"]](np.array(r["x"], dtype=float), np.array(r["y"], dtype=float)))
+    v = float(d.DISTANCES[r["metric"]](np.array(r["x"], dtype=r.get("dtype", "float64")), np.array(r["y"], dtype=r.get("dtype", "float64"))))
     print("replay: %s(x, y) = %r" % (r["metric"], v))
     return 0 if math.isfinite(v) else 1
